@@ -26,6 +26,10 @@ EXPLANATION = (
   " (MEMO-key) as in C03;"
   ' (FIN-hull) as in C02: the content interval of a one-region document is the hull of its element intervals;'
   ' (CLONE-prune) the per-region clone leaves content out by region association only, never because of a specified style value that animation could change;'
+  ' (LINT-l) no tuple / list / set display of the anchored modules lists the same computed component twice and no dict display repeats a key (a key or fingerprint built that way cannot tell apart what the missing component would have);'
+  ' (STATE-share) no assignment stores a container field of one object (a field the package updates in place) into a field of another object without copying it, so an in-place update of one object never changes another;'
+  " (ITEM-source) an object built once per item of an inner loop is filled only with values that derive from that item or do not vary with the loops, never with a value of the enclosing container standing where the item's own belongs;"
+  ' (COVER-content) the test that decides which elements extend the cached content interval covers every leaf kind that snapshot generation treats as text (line breaks, text nodes), directly or through every kind that may contain it;'
 )
 RULE_TEXT = "per mutator call / mutating call argument, per copy_to variant x field, per early return, per module-level store"
 UNDECIDED = ["equality of cached and uncached results over all documents and times", "equality of repeated calls as values",
@@ -171,6 +175,7 @@ def run(ctx):
   check_copy_to(ctx)
   check_region_background(ctx)
   shape.check_content_interval_hull(ctx)
+  isdrules.check_content_kinds(ctx)
   check_no_shared_state(ctx, fs)
   # positive fixture for the zero-expected PUR rule
   from ..selfcheck import pur_fixture_matches
